@@ -402,8 +402,15 @@ class Engine:
                 return ModVal(f"{m}.{n}")
             if top is not None:
                 valnode = getattr(top, "value", None)
-                if isinstance(valnode, ast.Constant) and isinstance(valnode.value, (int, float, str, bool)) or \
-                        (isinstance(valnode, ast.UnaryOp) and isinstance(valnode.operand, ast.Constant)):
+                def _const_expr(nd):
+                    if isinstance(nd, ast.Constant):
+                        return isinstance(nd.value, (int, float, str, bool))
+                    if isinstance(nd, ast.UnaryOp):
+                        return _const_expr(nd.operand)
+                    if isinstance(nd, ast.BinOp) and isinstance(nd.op, (ast.Add, ast.Sub, ast.Mult)):
+                        return _const_expr(nd.left) and _const_expr(nd.right)
+                    return False
+                if valnode is not None and _const_expr(valnode):
                     res = self.eval(valnode, State())   # literal module constant: its value is the literal in the source
                     return res[0][2]
                 raise Unsupported(f"module constant {key} has no native model")
